@@ -19,6 +19,14 @@ def load_known():
     return json.load(open(p)).get("findings", [])
 
 
+def dis_is_failing(mod, d):
+    """a disagreement with the model is itself a failing input only where the model is PROVED equal to the specification the property names
+    and the compared output is exactly what the property fixes (per request, if the property module says so)"""
+    if hasattr(mod, "disagreement_is_failing"):
+        return mod.disagreement_is_failing(d["request"], d["impl"], d["model"])
+    return getattr(mod, "DISAGREEMENT_IS_FAILING_INPUT", False)
+
+
 def main():
     ap = argparse.ArgumentParser()
     ap.add_argument("prop")
@@ -177,8 +185,8 @@ def main():
     if new_oracle:
         f = new_oracle[0]
         violation = {"kind": "oracle", "failing_input": f, "others": len(new_oracle) - 1, "note": "the implementation violates the property on this input (independent of the model)"}
-    elif new_dis and getattr(mod, "DISAGREEMENT_IS_FAILING_INPUT", False):
-        d = min(new_dis, key=lambda d: len(d["request"]))
+    elif [d for d in new_dis if dis_is_failing(mod, d)]:
+        d = min([d for d in new_dis if dis_is_failing(mod, d)], key=lambda d: len(d["request"]))
         violation = {"kind": "disagreement", "failing_input": d, "others": len(new_dis) - 1,
                      "note": "the model is proved equal to the specification the property names; the implementation differs from it on this input"}
     elif new_dis:
